@@ -196,6 +196,7 @@ package syncer
 //@   ensures unpub_kept: err == nil && localChanged && !s.opt.ReceiveOnly ==> uint64(lastTxnID) < ghost_unpub
 //@   ensures uncap_kept: err == nil && localChanged && !s.lc.SchemaTracksChanges ==> uint64(lastTxnID) < ghost_uncap
 //@   ensures not_in_txn: ghost_inTxn == 0
+//@   ensures merged_up_to_the_snapshots_own_time: err == nil ==> s.lastByInstance[instance].wall == update.NameInfo.Timestamp.wall && s.lastByInstance[instance].ext == update.NameInfo.Timestamp.ext
 
 // A yield point: the application may commit here (same effect as at every
 // call into the environment; the hook exists only to replay schedules).
